@@ -195,3 +195,113 @@ Example steady_state_nonvacuous :
   parse_allocs cfg0 (fun _ => TrackedOnline) (of_bytes ex_arp28) = Ok 0%nat /\
   parse_allocs cfg0 (fun _ => Untracked) (of_bytes ex_arp28) = Ok 3%nat.
 Proof. eexists. repeat split; vm_compute; reflexivity. Qed.
+
+(* ---------- which key reaches the host table, per frame class ---------- *)
+Definition host_key (c : cfg) (f : frame) : Prop :=
+  forall m ip, f_host f = Some (m, ip) ->
+    ((0 < f_off4 f)%nat /\ f_off6 f = 0%nat /\ m = a_mac (f_src f) /\ ip = a_ip (f_src f) /\ gate4 c m ip = true)
+    \/ ((0 < f_off6 f)%nat /\ f_off4 f = 0%nat /\ m = a_mac (f_src f) /\ ip = a_ip (f_src f) /\ gate6 c m ip = true)
+    \/ (f_id f = PayloadARP /\ f_off4 f = 0%nat /\ f_off6 f = 0%nat).
+
+Lemma parse_proto_keeps2 fx s f proto :
+  post (fun f' => f_host f' = f_host f /\ a_mac (f_src f') = a_mac (f_src f) /\ a_ip (f_src f') = a_ip (f_src f)
+                  /\ f_off4 f' = f_off4 f /\ f_off6 f' = f_off6 f) (parse_proto fx s f proto).
+Proof.
+  rewrite parse_proto_chain_eq. unfold parse_proto_chain. blind; cbn [post]; cbn; auto 6.
+Qed.
+
+Lemma header_len_pos s hl : ether_header_len s = Ok hl -> (14 <= hl)%nat.
+Proof.
+  unfold ether_header_len. destruct (ether_type s); cbn [bind]; try discriminate. intros E. injection E as <-.
+  repeat match goal with |- context [if ?c then _ else _] => destruct c end; lia.
+Qed.
+
+Theorem parse_host_key c s : post (host_key c) (parse c s).
+Proof.
+  rewrite parse_chain_eq. unfold parse_chain.
+  apply post_bind; intros _ _. apply post_bind; intros smac _. apply post_bind; intros dmac _.
+  apply post_bind; intros hl Hhl. apply header_len_pos in Hhl.
+  destruct (Nat.ltb (len s) hl); [exact I|].
+  destruct (is_unicast_mac smac) eqn:Hu; cbn [negb]; [|cbn [post]; intros m ip; cbn; discriminate].
+  apply post_bind; intros et _.
+  destruct (et <? 1536); [cbn [post]; intros m ip; cbn; discriminate|].
+  destruct (et =? 2048).
+  { unfold parse_ip4. apply post_bind; intros p _. apply post_bind; intros _ _. apply post_bind; intros ihl _.
+    apply post_bind; intros proto _. apply post_bind; intros sip _. apply post_bind; intros dip _.
+    eapply post_weaken; [|apply parse_proto_keeps2]. cbn [f_host f_src a_mac a_ip f_off4 f_off6 f_offP set_id].
+    intros f' (Hh & Hm & Hi & H4 & H6) m ip E. rewrite Hh in E.
+    destruct (gate4 c smac sip) eqn:G; [|discriminate]. injection E as E1 E2. subst m ip. left.
+    rewrite Hm, Hi, H4, H6. repeat split; auto. lia. }
+  destruct (et =? 34525).
+  { unfold parse_ip6. apply post_bind; intros p _. apply post_bind; intros _ _.
+    apply post_bind; intros proto _. apply post_bind; intros sip _. apply post_bind; intros dip _.
+    eapply post_weaken; [|apply parse_proto_keeps2]. cbn [f_host f_src a_mac a_ip f_off4 f_off6 f_offP set_id].
+    intros f' (Hh & Hm & Hi & H4 & H6) m ip E. rewrite Hh in E.
+    destruct (gate6 c smac sip) eqn:G; [|discriminate]. injection E as E1 E2. subst m ip. right; left.
+    rewrite Hm, Hi, H4, H6. repeat split; auto. lia. }
+  destruct (et =? 2054).
+  { unfold parse_arp. apply post_bind; intros p _. apply post_bind; intros bad _. destruct bad; [exact I|].
+    apply post_bind; intros sip _. apply post_bind; intros h _.
+    cbn [post]. intros m ip E. right; right. cbn. auto. }
+  repeat match goal with |- context [if ?c then _ else _] => destruct c end;
+  try (cbn [post]; intros m ip; cbn; discriminate);
+  unfold parse_leaf; apply post_bind; intros hl' _; cbn [post]; intros m ip; cbn; discriminate.
+Qed.
+
+(* an IPv4 frame whose source address is outside the home LAN is not handed to the host table *)
+Corollary ip4_off_lan_untracked c s f :
+  parse c s = Ok f -> (0 < f_off4 f)%nat -> lan_contains c (a_ip (f_src f)) = false -> f_host f = None.
+Proof.
+  intros Hp H4 Hl. pose proof (parse_host_key c s) as H. rewrite Hp in H. cbn [post] in H.
+  destruct (f_host f) as [[m ip]|] eqn:E; [|reflexivity].
+  destruct (H m ip E) as [(_ & _ & _ & Hi & G)|[(_ & H0 & _)|(_ & H0 & _)]]; try lia.
+  subst ip. unfold gate4 in G. rewrite Hl, Bool.andb_false_r in G. discriminate.
+Qed.
+
+(* an IPv6 frame whose source is neither link-local nor global unicast (multicast, unspecified, loopback), or is
+   global unicast behind the router's MAC (forwarded traffic), is not handed to the host table *)
+Corollary ip6_by_rule_untracked c s f :
+  parse c s = Ok f -> (0 < f_off6 f)%nat -> ip6_is_llu (a_ip (f_src f)) = false ->
+  (ip6_is_gu (a_ip (f_src f)) = false \/ bytes_eqb (a_mac (f_src f)) (c_routermac c) = true) -> f_host f = None.
+Proof.
+  intros Hp H6 Hl Hg. pose proof (parse_host_key c s) as H. rewrite Hp in H. cbn [post] in H.
+  destruct (f_host f) as [[m ip]|] eqn:E; [|reflexivity].
+  destruct (H m ip E) as [(_ & H0 & _)|[(_ & _ & Hm & Hi & G)|(_ & _ & H0)]]; try lia.
+  subst m ip. unfold gate6 in G. rewrite Hl in G. cbn [orb] in G.
+  destruct Hg as [Hg|Hg]; rewrite Hg in G; cbn [negb andb] in G; rewrite ?Bool.andb_false_r in G; discriminate.
+Qed.
+
+(* a frame that is neither IP nor ARP never reaches the host table *)
+Corollary non_ip_untracked c s f :
+  parse c s = Ok f -> f_off4 f = 0%nat -> f_off6 f = 0%nat -> f_id f <> PayloadARP -> f_host f = None.
+Proof.
+  intros Hp H4 H6 Hid. pose proof (parse_host_key c s) as H. rewrite Hp in H. cbn [post] in H.
+  destruct (f_host f) as [[m ip]|] eqn:E; [|reflexivity].
+  destruct (H m ip E) as [(H0 & _)|[(H0 & _)|(H0 & _)]]; try lia; contradiction.
+Qed.
+
+(* The allocation counter is zero for an error-free frame of ANY PayloadID class in each of these source classes:
+   (1) source tracked and online; (2) own MAC; (3) group (multicast / broadcast) source MAC; (4) IPv4 source outside
+   the home LAN; (5) IPv6 source that is not link-local and is not global unicast, or global unicast behind the
+   router MAC; (6) neither IP nor ARP.  Excluded, because they do allocate (not_steady_allocates): a source that is
+   tracked by rule and newly seen or offline; and frames Parse rejects (fmt.Errorf in the failing IsValid).
+   ARP senders outside the home LAN are untracked too (off_lan_untracked speaks about the key). *)
+Theorem zero_alloc_classes c st s f :
+  parse c s = Ok f ->
+  (forall k, f_host f = Some k -> st k = TrackedOnline)
+  \/ a_mac (f_src f) = c_hostmac c
+  \/ is_unicast_mac (a_mac (f_src f)) = false
+  \/ ((0 < f_off4 f)%nat /\ lan_contains c (a_ip (f_src f)) = false)
+  \/ ((0 < f_off6 f)%nat /\ ip6_is_llu (a_ip (f_src f)) = false /\
+      (ip6_is_gu (a_ip (f_src f)) = false \/ bytes_eqb (a_mac (f_src f)) (c_routermac c) = true))
+  \/ (f_off4 f = 0%nat /\ f_off6 f = 0%nat /\ f_id f <> PayloadARP) ->
+  parse_allocs c st s = Ok 0%nat.
+Proof.
+  intros Hp H. apply (steady_state_zero c st s f Hp).
+  destruct H as [H|[H|[H|[[H4 Hl]|[[H6 [Hl Hg]]|[H4 [H6 Hid]]]]]]]; auto; intros k E;
+  [ rewrite (own_mac_untracked c s f Hp H) in E
+  | rewrite (group_source_untracked c s f Hp H) in E
+  | rewrite (ip4_off_lan_untracked c s f Hp H4 Hl) in E
+  | rewrite (ip6_by_rule_untracked c s f Hp H6 Hl Hg) in E
+  | rewrite (non_ip_untracked c s f Hp H4 H6 Hid) in E ]; discriminate.
+Qed.
